@@ -432,3 +432,21 @@ Proof.
   cbn [s_pv s_Uv s_sv]. reflexivity.
 Qed.
 End Accept.
+
+Section AcceptCurve.
+Context {T : Type} (K : ops T).
+Theorem insert_knot_curve_accept tol (c : curve (T:=T)) t num :
+  1 <= num -> num <= c_p c - find_multiplicity K tol t (c_U c) ->
+  insert_knot_curve K tol true c [Some t] [Z.of_nat num] =
+  (mkC (c_p c) (knot_insertion_kv (c_U c) t (find_span_linear K (c_p c) (c_U c) (length (c_P c)) t) num)
+       (knot_insertion K (c_p c) (c_U c) (c_P c) t num (find_multiplicity K tol t (c_U c))
+          (find_span_linear K (c_p c) (c_U c) (length (c_P c)) t)), false).
+Proof.
+  intros H1 H2. unfold insert_knot_curve.
+  change [Z.of_nat num] with (map Z.of_nat [num]).
+  rewrite (nums_ok_nat 1 [num]) by reflexivity. cbn [andb negb map]. unfold numat, parat. cbn [nth].
+  rewrite Nat2Z.id. unfold dir_prep.
+  destruct (Nat.eqb_spec num 0); [lia|]. cbn [andb].
+  destruct (Nat.ltb_spec (c_p c - find_multiplicity K tol t (c_U c)) num); [lia|]. reflexivity.
+Qed.
+End AcceptCurve.
